@@ -13,17 +13,27 @@ PROPS = {
               "the util transformers are total definitions with justified recursion. The WHOLE BLOCK PHASE (parseBlocks/openBlocks/closeBlocks with the "
               "ten default block parsers) returns a tree for EVERY byte string: no Go run-time panic, no fuel exhaustion, the BlockParser contract "
               "kept at every goto retry (block_phase_no_panic, block_phase_never_errs, block_phase_contract_kept); the WHOLE INLINE PHASE of a "
-              "block is total for every source (inline_phase_total). Searched, not proved: the composition of the phases with paragraph "
-              "transformers, extensions and options, by Convert and Parse+Render over exhaustive short strings and mutated corpora under the "
+              "block is total for every source (inline_phase_total). The COMPOSITION for the default CommonMark configuration "
+              "(GM.Convert.convertCore: block phase with the link reference paragraph transformer of parser/link_ref.go, inline phase of every non-raw "
+              "block, HTML renderer, options Unsafe/XHTML/HardWraps) never ends in fuel exhaustion on any byte string (convert_never_loops, "
+              "convert_outcome; block_phase_with_transformers_terminates for any admissible transformer list; link_reference_scanner_total / "
+              "link_reference_scan_total: parseLinkReferenceDefinition and the transformer's scan are total on well-formed padding-free lines, "
+              "link_reference_scan_never_loops for any paddings) - unconditional because its two hypotheses (well-formed lines at the transformer, "
+              "padding-free well-formed lines at the inline phase) are CHECKED at run time with distinct outcomes, which component `convert` shows never "
+              "fire. Searched, not proved: no-panic of the composition with the paragraph transformer (GM.Props.Convert.NoPanic is stated, not "
+              "proved), extensions and options, by Convert and Parse+Render over exhaustive short strings and mutated corpora under the "
               "configuration lattice with panic recovery and a per-input watchdog. A theorem cannot reach stack depth or running time.",
         note="Trusted: Lean kernel (+ propext, Classical.choice, Quot.sound); the correspondence checks that tie each model to its Go code (they are "
-             "run by the owning properties' checks); the watchdog bound (200x the median of same-size inputs, floor 2 s). Paragraph transformers, "
+             "run by the owning properties' checks; component `convert` ties the composed model to goldmark.Convert on whole documents, HTML byte for "
+             "byte under 8 renderer option sets); the watchdog bound (200x the median of same-size inputs, floor 2 s). Paragraph transformers, "
              "extension block/inline parsers and the hand-over between the phases are not yet inside the proved model.",
         technique="Lean 4 no-panic / termination theorems over the models of the components + exhaustive and random search with watchdog on the whole pipeline",
-        components=["total", "blocks", "inlines", "attribute"],
+        components=["total", "blocks", "inlines", "attribute", "convert"],
         explanation="Proved per modelled component for all inputs (see theorem list); searched: every string of length <= 3 over a 22-symbol and <= 4 "
                     "over an 11-symbol Markdown-significant alphabet under 4 extreme configurations, mutated/generated/adversarial/long/deep documents under "
-                    "the full lattice, both API paths, panic recovery, watchdog.",
+                    "the full lattice, both API paths, panic recovery, watchdog. Component convert: whole documents (all strings <= 4 over a 16-symbol "
+                    "document alphabet, link-reference sub-alphabets and definition contexts, spec.json, corpora, generated and composed definition documents) "
+                    "through 8 real goldmark instances vs convertCore; oracle clauses convert-panic / convert-error / convert-slow.",
         assumptions=["the per-component correspondences hold (checked by the owning properties)", "a hang is a run exceeding the watchdog bound"],
     ),
     "C19": dict(
@@ -216,15 +226,23 @@ PROPS = {
         claim="Partial, by design. Kernel-checked (second half of the property): the link reference map is first-wins over normalised labels; moving "
               "a block of definitions whose normalised labels are defined nowhere else leaves every lookup and every resolved use unchanged; labels that "
               "normalise equally resolve equally; plus obligations over facts REGENERATED from /repo: Parse completes the block phase before the inline "
-              "phase, the map is written only by parseLinkReferenceDefinition and read only by the link parser. Searched, not proved (first half): "
-              "independence of neighbouring closed blocks - A + heading + B against the parts - and definitions moved top <-> bottom on the real library.",
+              "phase, the map is written only by parseLinkReferenceDefinition and read only by the link parser; and, over the model of "
+              "parser/link_ref.go itself (GM.Model.LinkRef, tied by component convert): the map a paragraph leaves is the old map after AddReference of "
+              "the list of its definitions (scan_builds_map_by_add_reference - so the map theorems speak about the map the code builds), "
+              "first_definition_wins, duplicate_definition_ignored, new_definition_resolves, title_needs_blank_rest_of_line, "
+              "scan_stops_at_first_non_definition, transformer_removes_front (what Transform keeps is the lines without an initial segment; contract monitor for adjacent ranges, never fired). Searched, not proved (first half): "
+              "independence of neighbouring closed blocks - A + heading + B against the parts - and definitions moved top <-> bottom on the real library "
+              "(GM.Props.Convert.DefinitionsMove is stated, not proved).",
         note="Trusted: Lean kernel; gmgen's syntactic phase/call-site facts; the model of util.ToLinkReference (tied by the util correspondence, C19). "
-             "The block driver (open-block stack, context keys reset on close) is not modelled.",
+             "The block driver (open-block stack, context keys reset on close) is modelled (GM.Model.Blocks, with paragraph transformers: "
+             "GM.Model.Blocks.DriverT) and tied (components blocks, convert) but block independence is not proved on it.",
         technique="Lean 4 theorems over a model of the reference map + kernel-checked obligations over regenerated phase facts; metamorphic search (A+h+B, moved definitions)",
-        components=["indep", "blocks"],
+        components=["indep", "blocks", "convert", "blockindep"],
         explanation="Proved for all definition lists / uses in the reference-map model; facts re-extracted each run; searched: pairs (A,B) without '[' "
                     "and CR where A does not end inside a code/HTML block (checked on the real parse), and documents with fresh definitions moved from top to bottom, "
-                    "referenced in case/whitespace variants, core and GFM.",
+                    "referenced in case/whitespace variants, core and GFM. Component convert: pairs (definitions with labels zq.., document) - "
+                    "Convert(defs + D) against Convert(D + blank line + defs), the definitions ending the document with and without final newlines, "
+                    "clause definitions-not-position-independent; every such document is also compared with the composed model.",
         assumptions=["the block driver unwinds closed blocks completely (searched, not proved)"],
     ),
     "C04": dict(
@@ -410,7 +428,10 @@ PROPS = {
               "returning nil leaves the block structure alone, that node renderers registered for the extension's node kinds are inert without such nodes, "
               "Table's AST transformer; for the three CONSULTED parsers (Linkify, Typographer, footnote) the composed theorem is over the abstract loop only "
               "(no concrete analogue of silent_parser_irrelevant).",
-        note="Trusted: Lean kernel (+ propext, Classical.choice, Quot.sound); the gmgen translator (go/ast; what it cannot see: registrations made through "
+        note="Paragraph transformers return without touching paragraphs they do not recognise - for the built-in link reference transformer "
+             "(model GM.Model.LinkRef of parser/link_ref.go, tied by component convert under C01/C02/C05/C09): unrecognised_paragraph_untouched, "
+             "unrecognised_paragraph_state_untouched (Transform ends in exactly the state it started from), paragraph_not_started_by_bracket_untouched. "
+             "Trusted: Lean kernel (+ propext, Classical.choice, Quot.sound); the gmgen translator (go/ast; what it cannot see: registrations made through "
              "helper functions or variables other than m.Parser()/m.Renderer().AddOptions, Trigger() bodies that are not a single return of a literal - "
              "both are emitted as 'not understood' and fail facts_understood); the correspondence harness. The abstract inline parser neither reads nor mutates the "
              "parent's children: true of a parser that declines (checked on every nil by extdecline's oracles), so accepting Linkify (which flushes one byte "
@@ -487,10 +508,13 @@ PROPS = {
         note="Trusted: Lean kernel (+ propext, Classical.choice, Quot.sound); the spec-side model GM.Spec.CommonMark as a reading of the "
              "specification (its wellFormed side conditions were triaged against spec.json's examples; see notes/status_C02.md); the Lean "
              "compiler/runtime for the generator; the harness. Not proved: any statement about the parsers. Known deviation reported under its "
-             "own clause: tabs in list-item continuation indentation (KNOWN_FINDINGS).",
+             "own clause: tabs in list-item continuation indentation (KNOWN_FINDINGS). Component convert (the composed implementation-side model "
+             "GM.Convert.convertCore against goldmark.Convert on whole documents, incl. all 652 spec.json examples with and without the final newline) "
+             "found five deviations in link reference definitions (a rejected title still attached / definition range and reader position wrong behind "
+             "a rejected title: notes/status_convert.md R1-R5), repaired in /repo 0539a73; the inputs stay in its fixed list.",
         technique="Lean 4 spec-side generator (trees x choices -> Markdown, prescribed HTML) + differential run against the real library; "
                   "Lean theorems for the escape-spelling law over the writer model; spec examples x licensed rewrites",
-        components=["cmspec", "inlines", "linerec", "blocks"],
+        components=["cmspec", "inlines", "linerec", "blocks", "convert"],
         explanation="Component cmspec: (1) the driver enumerates the exhaustive small scope (families of trees of depth <= 2 x every value of "
                     "their choice axes: escapes of all 95 printable characters, ATX/Setext, fences, thematic breaks, list markers/offsets/"
                     "tightness, ordered starts, link styles/label variants/titles, emphasis delimiters and contexts, code spans, adjacent "
@@ -532,7 +556,7 @@ PROPS = {
         technique="Lean 4 refinement theorems (C13 development) + proved-exact decidable proviso check + replay of recorded real API traces on the "
                   "compiled model, differential comparison of the final heap with the real tree; Lean-defined well-formedness predicate evaluated on "
                   "every parsed tree with an independent Go checker; re-exported reader / inline-loop theorems",
-        components=["asttrace", "wfast", "inlines", "blocks"],
+        components=["asttrace", "wfast", "inlines", "blocks", "convert"],
         tie=["asttrace"],
         explanation="asttrace: one case = (configuration, document). The document is parsed under a global lock with ast.VerifTrace set to a recorder; "
                     "nodes are numbered by first appearance; the call list (a/b/f/r/d/x/s tokens) goes to the driver (asttrace run N root ops), which "
@@ -544,7 +568,10 @@ PROPS = {
                     "`, :, >, =} under the all-extensions configuration (exhaustive), all corpus documents x 8 corner configurations, regression documents "
                     "(Setext fallback '- Foo\\n--', tables, escaped-pipe code spans, footnotes incl. SortChildren, definition lists, link reference "
                     "definitions), and the random document stream under random lattice configurations. wfast: wfAst on every tree (see its rule). "
-                    "The theorems of GM.Props.C05 are listed with their meaning in notes/status_C05.md.",
+                    "The theorems of GM.Props.C05 are listed with their meaning in notes/status_C05.md. convert: a probe paragraph transformer sees "
+                    "the lines of every paragraph at the moment the link reference transformer runs (before paragraph.Close trims them) and checks "
+                    "clause (c) on them - clause transform-lines-not-wellformed; the composed model's own run-time checks (well-formed lines at the "
+                    "transformer, padding-free well-formed lines at the inline phase) are reported by the driver and never fire.",
         assumptions=["every call passes the receiver as `self` and no concrete node type overrides the BaseNode link methods (as for C13; a violation would "
                      "show as a replay difference)",
                      "no code outside package ast writes link fields directly (Gen.Facts: no SetParent/SetNextSibling/SetPreviousSibling call outside ast; "
@@ -555,3 +582,23 @@ PROPS = {
 
 # Properties not claimed yet, with the reason shown in MANIFEST.not_applicable.
 NOT_CLAIMED = {}
+
+# ---- C08 texts after package quotesim (notes/status_quotesim.md) ----
+PROPS["C08"]['claim'] = "Partial. PROVED (kernel-checked, Lean 4): (1) line level, for EVERY tab-free line and start column, over the model of goldmark's line recognisers tied by component linerec: marker consumption of blockquoteParser.process and column invariance of every offset-taking recogniser. (2) block level, over the executable model GM.Model.Blocks of parseBlocks/openBlocks/closeBlocks and the ten default block parsers (tied to the real parser by component blocks), by a forward SIMULATION between the block phase on D and on '> '-prefixed D (GM/Proof/QuoteSim*.lean): from related states (same open-block stack with one Blockquote at the bottom, node stores equal up to the extra node and segments moved by the markers in front of their line, reader shifted, same context keys) the one-line step of Open of all ten parsers, Continue of all ten (fenced code / list item under explicit side conditions), Close of nine (not listParser.Close) and of the driver (closeBlocks, openBlocks with its goto-retry loop, RequireParagraph path and contract monitor, the per-line loop) ends in related states; on every line the Blockquote consumes exactly '> '. WHOLE RUNS (quote_prefix_simulation_partial): for every D without tab/CR that ends with a line feed and has no byte that can start a list item (- * + digits): if the model's block phase on D ends normally, has read all lines and built a well-shaped store (three decidable facts about the run on D alone), then the block phase on prefixed D ends normally and its tree is Document[Blockquote[tree of D, segments moved]] (GM.Props.Blocks.QuotePrefixSimulation). SEARCHED, not proved: those three facts about the original run (driver oracle `blocks quotesimhyp`, every class source of component blocks), documents with list items or without final line feed (driver oracle `blocks quotesim` on every tab/CR-free source), and C08 on HTML through the inline phase and renderer (metamorphic component quote: Convert(prefix^n D) = wrap^n(Convert D))."
+PROPS["C08"]['note'] = "Trusted: Lean kernel (+ propext, Classical.choice, Quot.sound); the models GM.Model.LineRec / GM.Model.Blocks and their ties (components linerec, blocks: exhaustive small scopes + corpora, 0 disagreements); the hook file; the harness. NOT proved: listParser.Close under the relation (it reads HasBlankPreviousLines, which differs inside a quote for the quote's direct children, parser.go:1099, and must be shown equal for list items through the blank-line statistics); a last line without line feed (Advance(-1) in fenced code / list item Continue); no-panic, 'every non-blank top-level line opens a block' and 'no empty line segment' for the original run (open C01/C05(c) obligations of the block phase); inline phase and renderer."
+PROPS["C08"]['technique'] = 'Lean 4: forward simulation between two runs of the executable block-phase model (relational Hoare calculus S2, per-parser and driver lemmas, induction over lines) + line-level theorems; correspondence ties; Lean-defined oracles; metamorphic search'
+PROPS["C08"]['explanation'] = "Proved (GM.Props.C08, 18 theorems): line level as before (quote_consumes_marker/_nospace, quote_declines, offset_invariant, offset_invariant_quote, offset_invariant_list, indent_pos_tabfree); block level: quote_first_line, quote_marker_every_line (the driver / the Blockquote's Continue consumes exactly '> ' on every line), quote_step_open / quote_step_continue / quote_step_close (one line step of every block parser from related states), quote_driver_close_blocks / quote_driver_open_blocks / quote_driver_line (the driver preserves the relation), quote_prefix_run (B ends normally when A does, stores related), quote_prefix_simulation_partial / _checked (the tree statement for the class). Full statement kept unproved as def QuotePrefixSimulationAll. Searched: blocks quotesim (tree statement on every tab/CR-free non-blank source of component blocks: quick 516k, 0 failures), blocks quotesimhyp (hypotheses of the whole-run theorem on every class source: quick 37k, 0 failures; a failure is reported as 'hypothesis of the theorems not met'), component quote on HTML."
+PROPS["C08"]['assumptions'] = ["documents contain no tab and no carriage return (the property's proviso)", "whole-run theorem only: D ends with a line feed and contains none of - * + 0-9; the model's run on D ends normally, reads all lines and builds a well-shaped store (evaluated per source by the driver, not proved)", 'inline phase and renderer do not distinguish the two trees beyond the wrapping (searched by component quote)']
+
+# ---- C09 texts after packages indep / convert (notes/status_indep.md, notes/status_convert.md) ----
+PROPS["C09"]["claim"] += (" First half on the MODEL: stated on the block-phase model as GM.Props.C09.IndependentBlocks (not proved in general) and "
+    "EVALUATED on model and real trees (component blockindep, Lean-defined statement GM.Blocks.indepCheck). Kernel-checked for every model "
+    "state: the two mechanisms the property names - closeBlocks removes exactly the requested slots and the whole stack on "
+    "closeBlocks(len-1,0) (closeBlocks_removes_exactly, stack_unwound, stack_empty_at_end_of_document); a non-indented ATX heading line "
+    "followed by a blank line leaves no block open whatever was open (heading_line_unwinds_stack, blank_line_closes_heading, "
+    "heading_and_blank_line_reset, _top); fence / setext context keys are nil after Close, no Close writes the list flags "
+    "(fence_key_reset_on_close, setext_key_reset_on_close, close_keeps_list_flags).")
+PROPS["C09"]["note"] += (" Not proved: prefix determinism, shift invariance of the line loop, and that reachable states meet the reset theorems' "
+    "hypotheses (valid open-block ids, list items with positive content offset) - covered by the evaluated statement.")
+PROPS["C09"]["assumptions"] = list(PROPS["C09"].get("assumptions", [])) + [
+    "reachable states satisfy the hypotheses of the reset theorems; prefix determinism and shift invariance of the line loop (evaluated on every blockindep triple, not proved)"]
